@@ -87,6 +87,12 @@ META = {
         "level_text": "Every string-valued field of the definition grammar gets a command-substitution / variable canary in turn and is loaded through every non-executing entry point; exhaustive for the catalogue, generated search beyond it.",
         "level_note": "Trusted: the field catalogue is complete for the grammar (it is computed from the builder itself); the positive control shows the oracle is not vacuous.",
     },
+    "C10": {
+        "engine": "simexec", "design_ref": "DESIGN.md section 3 C10",
+        "technique": "property-based testing (rapid): recorded state vectors produced by running / stopping / cutting a generated original run, round-tripped through the real persistence encoding, retried on the scripted executor; set-equality oracle (executed set == must-rerun closure), C01 ordering oracle, bounded liveness",
+        "level_text": "Generated search over DAG x original-run schedule x cut point (end / stop / k-th persisted status) x retry-time scripts and schedules; executed set compared with the must-rerun closure computed independently from the recorded vector.",
+        "level_note": SIM_NOTE,
+    },
 }
 
 NOT_APPLICABLE = {}
